@@ -194,8 +194,9 @@ pub fn c01_scn(name: &str, full: bool) -> ChatScn {
         }
     }
     s.ends = vec!["eof"];
-    s.focus = Focus::state_only(&[]);
-    s.spec_skip = Some(Box::new(|a| !matches!(a, Act::Send(_, l) if l.starts_with("PRIVMSG") || l.starts_with("NOTICE"))));
+    // the churn steps are judged only on the state that determines audiences
+    s.focus = Focus::state_only(&[Cat::Membership, Cat::Ranks, Cat::UserExistence, Cat::ChanExistence, Cat::UserIdentity]);
+    s.invariants = vec!["rank-set", "membership-symmetry", "dangling-member"];
     let mut probes: Vec<&'static str> = vec![];
     for t in ["PRIVMSG #x :hi", "PRIVMSG #x :a b :c d", "PRIVMSG #x ::lead", "PRIVMSG #x :", "NOTICE #x :hi", "PRIVMSG {peer} :hi", "PRIVMSG {peer} :a b :c d", "NOTICE {peer} :", "PRIVMSG {me} :hi", "PRIVMSG #x,{peer} :hi", "NOTICE #x,{peer} :hi", "PRIVMSG #x,#x :hi", "PRIVMSG {peer},{peer} :hi", "PRIVMSG #x,nosuch,#nochan :hi", "NOTICE #x,nosuch,#nochan :hi", "PRIVMSG @#x :hi", "PRIVMSG +#x :hi", "NOTICE +#x :hi", "PRIVMSG %#x :hi", "PRIVMSG ~#x :hi", "PRIVMSG @+#x :hi", "NOTICE @+#x :hi", "PRIVMSG #y :hi", "PRIVMSG #y,#x :a b"] {
         probes.push(t);
@@ -219,14 +220,15 @@ pub fn c10_scn(name: &str, full: bool) -> ChatScn {
     for t in a {
         s.alphabet_for.push((0, t));
     }
-    for t in ["JOIN #c", "PART #c", "NICK {alt}"] {
+    // the sender also tries to lift the restrictions itself (refused while plain member)
+    for t in ["JOIN #c", "PART #c", "NICK {alt}", "MODE #c -b bob!*@*", "MODE #c +b nobody", "MODE #c -m", "MODE #c +v bob"] {
         s.alphabet_for.push((1, t));
     }
     for t in ["AWAY :gone fishing", "AWAY"] {
         s.alphabet_for.push((2, t));
     }
-    s.focus = Focus::state_only(&[]);
-    s.spec_skip = Some(Box::new(|a| !matches!(a, Act::Send(_, l) if l.starts_with("PRIVMSG") || l.starts_with("NOTICE"))));
+    // mode/membership/nick/away steps are judged only on the state that determines who may speak
+    s.focus = Focus::state_only(&[Cat::Membership, Cat::Ranks, Cat::ChanFlags, Cat::ChanLists, Cat::Away, Cat::UserIdentity]);
     for t in ["PRIVMSG #c :x y", "NOTICE #c :x y", "PRIVMSG carol :x", "NOTICE carol :x", "PRIVMSG nosuch :x", "NOTICE nosuch :x", "PRIVMSG #nochan :x", "NOTICE #nochan :x", "PRIVMSG #c,carol,nosuch :x", "NOTICE #c,carol,nosuch,#nochan :x", "PRIVMSG @#c :x", "NOTICE @#c :x"] {
         s.probes_for.push((1, t));
     }
@@ -547,9 +549,9 @@ pub fn c09_scn(name: &str, full: bool) -> ChatScn {
     for t in founder {
         s.alphabet_for.push((0, t));
     }
-    let mut all: Vec<&'static str> = vec!["KICK #c {peer}", "KICK #c {peer} :r s", "KICK #c {me}", "KICK #c ghost", "KICK #c {peer},ghost", "TOPIC #c :t", "TOPIC #c :", "INVITE {peer} #c", "INVITE ghost #c"];
+    let mut all: Vec<&'static str> = vec!["KICK #c {peer}", "KICK #c {peer} :r s", "KICK #c {me}", "KICK #c ghost", "KICK #c {peer},ghost", "KICK #c {peer},{me}", "PART #c", "TOPIC #c :t", "TOPIC #c :", "INVITE {peer} #c", "INVITE ghost #c"];
     if full {
-        all.extend(["TOPIC #c :a :b", "KICK #c alice,bob", "KICK #c carol,bob :out", "INVITE {me} #c", "PART #c"]);
+        all.extend(["TOPIC #c :a :b", "KICK #c alice,bob", "KICK #c carol,bob :out", "INVITE {me} #c"]);
     }
     for slot in 0..3 {
         for t in &all {
@@ -686,9 +688,9 @@ fn c15_probes(_scn: &ChatScn, w: &mut World, v: &View, goals: &mut BTreeSet<Stri
 pub fn c16_scn(name: &str, full: bool) -> ChatScn {
     let mut s = ChatScn::new(name, oper_cfg(), vec![part(0, "alice", "alicia", "au"), part(1, "bob", "bobby", "bu"), part(2, "carol", "caro", "cu")], 0);
     s.prelude = vec![(0, "OPER op oppw".into())];
-    let mut a: Vec<&'static str> = vec!["JOIN #x", "PART #x", "KICK #x {peer}", "QUIT", "TOPIC #x :t", "MODE #x +i", "MODE #x +k k", "MODE #x +b m"];
+    let mut a: Vec<&'static str> = vec!["JOIN #x", "PART #x", "KICK #x {peer}", "KICK #x {me}", "KICK #x {peer},{me}", "MODE #x +o {peer}", "QUIT", "TOPIC #x :t", "MODE #x +i", "MODE #x +k k", "MODE #x +b m"];
     if full {
-        a.extend(["KICK #x {me}", "JOIN #x k", "MODE #x +l 1", "MODE #x +o {peer}", "JOIN #y"]);
+        a.extend(["JOIN #x k", "MODE #x +l 1", "JOIN #y"]);
     }
     for slot in 0..3 {
         for t in &a {
@@ -901,13 +903,13 @@ pub fn plan(property: &str, quick: bool) -> Plan {
             property: "C01".into(),
             rule: "E-SEQ BFS: 3 users + 1 never-joining observer, channels #x/#y, churn alphabet JOIN/PART/KICK/NICK/MODE +v+h+o-o/QUIT/EOF; in every reachable state a battery of PRIVMSG/NOTICE probes (channel, nick, own nick, comma lists with duplicates and missing names, status-prefixed and multi-status targets, 4 text shapes) from every user; oracle: Spec audience - exactly one copy per accepted distinct target at each entitled receiver, exact prefix/target/text, nothing anywhere else".into(),
             assumptions: vec!["a nick target equal to the sender may yield 0 or 1 copy (statement ambiguous)".into(), "deliveries to different receivers commute; queues are drained in slot order".into()],
-            parts: vec![Part::Bfs(Box::new(c01_scn("c01-audience", !quick)), lim(if quick { 3 } else { 5 }, 2_000_000, t(40.0, 900.0)))],
+            parts: vec![Part::Bfs(Box::new(c01_scn("c01-audience", !quick)), lim(if quick { 4 } else { 6 }, 2_000_000, t(40.0, 900.0)))],
         },
         "C10" => Plan {
             property: "C10".into(),
             rule: "E-SEQ BFS: operator alice, sender bob, recipient carol on #c; alphabet MODE #c +-n/m/s, +-b/e masks of the sender, +-v sender, sender JOIN/PART/NICK, recipient AWAY; in every state PRIVMSG and NOTICE probes (channel, present/away/absent nick, absent channel, mixed lists, status target); oracle: deliver iff member-or-open AND not banned-unless-excepted AND (not +m or voice+); refusal => nobody receives, PRIVMSG gets 404; NOTICE produces no line at all on the sender's socket; 301 with the away text".into(),
             assumptions: vec![],
-            parts: vec![Part::Bfs(Box::new(c10_scn("c10-speak", !quick)), lim(if quick { 4 } else { 6 }, 2_000_000, t(40.0, 900.0)))],
+            parts: vec![Part::Bfs(Box::new(c10_scn("c10-speak", !quick)), lim(if quick { 5 } else { 7 }, 2_000_000, t(40.0, 900.0)))],
         },
         "C07" => Plan {
             property: "C07".into(),
@@ -944,7 +946,7 @@ pub fn plan(property: &str, quick: bool) -> Plan {
             rule: "(a) E-SEQ BFS: 3 users (one server operator) create, configure, empty (PART, KICK, QUIT, EOF, KILL in any combination) and re-create #x; oracle: first JOIN => fresh channel with founder+operator; last member gone by any exit => channel absent (snapshot, LIST, LUSERS count, 403); re-JOIN indistinguishable from a first creation; (b) configuration lattice: every subset of 16 settings of a predefined #p (quick: subsets of size <=2 and >=14) x script start-up/listed joins/other joins/both leave/listed re-joins".into(),
             assumptions: vec![],
             parts: vec![
-                Part::Bfs(Box::new(c16_scn("c16-lifecycle", !quick)), lim(if quick { 4 } else { 6 }, 3_000_000, t(30.0, 900.0))),
+                Part::Bfs(Box::new(c16_scn("c16-lifecycle", !quick)), lim(if quick { 5 } else { 6 }, 3_000_000, t(30.0, 900.0))),
                 Part::Custom("fun:c16-lattice".into(), Box::new(move || c16_lattice(quick))),
             ],
         },
